@@ -1708,6 +1708,14 @@ func (db *DB) CommitWAL(ctx context.Context) (err error) {
 			continue
 		}
 
+		// A transaction can hold frames for pages past its commit size when it
+		// wrote them before it shrank the database (e.g. a cache spill followed
+		// by an auto-vacuum truncation). They are not part of the new image.
+		if pgno > commit {
+			TraceLog.Printf("[CommitWALPage(%s)]: pgno=%d SKIP(PAST_COMMIT)\n", db.name, pgno)
+			continue
+		}
+
 		// Read next frame from the WAL file.
 		offset := txFrameOffsets[pgno]
 		if _, err := internal.ReadFullAt(walFile, frame, offset); err != nil {
